@@ -559,6 +559,7 @@ def run(res: Results, idx: Index, tier: str) -> None:
     rule_f(res, idx)
     rule_g(res, idx)
     rule_h(res, idx)
+    rule_i(res, idx)
 
 
 def _mypy_crosscheck(res: Results, idx: Index, sites: List[SetIteration]) -> None:
@@ -949,3 +950,39 @@ def rule_h(res: Results, idx: Index) -> None:
             else:
                 res.ok("R-C14h", f"{m.rel}:{fi.node.lineno}", key, f"equation params held as {sorted(held)}: read only (or copied before modification)", fi.qualname)
     res.analysed["functions_holding_eqn_params"] = n
+
+
+# ---------------------------------------------------------------------------------------------- R-C14i
+def rule_i(res: Results, idx: Index) -> None:
+    """`id(obj)` is unique only while obj is alive.  A WEAK-valued mapping drops the entry when obj dies, and the next object
+    allocated at that address re-registers under the same key: a key that outlives its object (it travels in equation
+    parameters until lowering) then resolves to the other object.  `x = Scale(2.0)(x)` with a temporary instance was lowered
+    with a later instance's weight (75 instead of 30).  Keys of weak-valued module-level mappings must not be `id(...)`."""
+    res.rule("R-C14i", "weak-valued module-level mappings are not keyed by id() of the stored object", floor=1)
+    n = 0
+    for m in idx.product_modules():
+        weak: Set[str] = set()
+        for st in m.tree.body:
+            if isinstance(st, (ast.Assign, ast.AnnAssign)) and st.value is not None and isinstance(st.value, ast.Call) and (dotted(st.value.func) or "").split(".")[-1] == "WeakValueDictionary":
+                for t in (st.targets if isinstance(st, ast.Assign) else [st.target]):
+                    if isinstance(t, ast.Name):
+                        weak.add(t.id)
+        for tname in sorted(weak):
+            for fi in m.funcs.values():
+                du = None
+                for w in walk_no_nested(fi.node):
+                    if not (isinstance(w, ast.Assign) and isinstance(w.targets[0], ast.Subscript) and isinstance(w.targets[0].value, ast.Name) and w.targets[0].value.id == tname):
+                        continue
+                    n += 1
+                    du = du or defuse(fi.node)
+                    key_e = w.targets[0].slice
+                    exprs = [key_e] + [d.value for nm in du.closure(names_in(key_e)) for d in du.defs.get(nm, []) if d.value is not None]
+                    ids = [c for e in exprs for c in ast.walk(e) if isinstance(c, ast.Call) and (call_name(c) or "") == "id"]
+                    key = f"{m.rel}::{fi.qualname}::weak-map-key::{tname}"
+                    site = f"{m.rel}:{w.lineno}"
+                    if ids:
+                        res.violation("R-C14i", site, key, f"`{tname}[{src(key_e, 30)}] = {src(w.value, 30)}` keys a weak-valued mapping by `{src(ids[0], 30)}`: when the object dies its entry disappears and the "
+                                      "next object at the same address takes over the key, so a key kept elsewhere (equation parameters) resolves to another object", fi.qualname)
+                    else:
+                        res.ok("R-C14i", site, key, f"key `{src(key_e, 40)}` is not an id()", fi.qualname)
+    res.analysed["weak_map_writes"] = n
